@@ -326,8 +326,8 @@ def main(ctx):
                     if a.tobytes() != b.tobytes():
                         rec.fail(hist, "result %d changed after a later read" % i)
                         return None
-            key = fingerprint({k: v for k, v in sf.__dict__.items() if k != "_robj"},
-                              {k: v for k, v in sf._robj.__dict__.items() if k != "robj"})
+            key = fingerprint({k: v for k, v in sf.__dict__.items() if k not in ("_robj", "_filename")},
+                              {k: v for k, v in sf._robj.__dict__.items() if k not in ("robj", "filename")})
         return (key, len(hist)), tuple(OPS)
 
     ctx.histories("reads-on-one-handle", [()], execute, depth=ctx.pick(2, 3), nodedup_depth=ctx.pick(2, 3),
